@@ -14,6 +14,7 @@ ASSUME = [
     "project 2025-01-06 +3w, default calendar (or the listed zone shift), generous horizon: runs whose project end was extended are counted and skipped",
     "a task with an own pinned start has no dependencies in the universe (the statement does not rank pin against dependencies)",
     "alternatives are not part of the statement's rule and are not generated",
+    "'wide7' family: the two ten-task bases of mc/props/wide.py restricted to the core dialect (efforts rounded to whole hours, no alternatives, slot-aligned gaps) x every subset of <= 2 (thorough: <= 3) of 21 toggles (resolutions 30/15/10, efficiency 0.5, weekend-only resource, leaves, vacation, resource/group/task limits, gaps, priorities, container pin, month boundary, zoned hours, split hours, multi-week effort, fifth resource, 5-level nesting, window across two daylight-saving switches, reversed declaration order)",
 ]
 NAMES = "abcd"
 ALLOCS = {"r1": ["r1"], "r2": ["r2"], "team": ["r1", "r2"]}
@@ -140,15 +141,24 @@ def to_spec(it):
 
 
 def evaluate(item):
-    spec = to_spec(item)
+    if item.get("kind") == "wide7":
+        from mc.props import wide
+        spec = wide.to_spec7(item)
+    else:
+        spec = to_spec(item)
     obs = common.run_spec(spec)
     if obs.get("error"):
         return common.errored(item, obs)
     r = common.base_result(item, obs)
-    if common.extended(obs, spec):
+    if item.get("kind") == "wide7":
+        # the scheduler may lengthen the window of these larger projects (a precaution derived from the sum of efforts);
+        # the reference then works on the same, longer window
+        ref = ref_schedule(spec, horizon_end=obs["pend"])
+    elif common.extended(obs, spec):
         r["skip"] = True
         return r
-    ref = ref_schedule(spec)
+    else:
+        ref = ref_schedule(spec)
     v = []
     nt = False
     for t in obs["tasks"]:
@@ -167,18 +177,27 @@ def evaluate(item):
 
 def payload(item, clause, detail):
     from mc import render
-    spec = to_spec(item)
+    if item.get("kind") == "wide7":
+        from mc.props import wide
+        spec = wide.to_spec7(item)
+    else:
+        spec = to_spec(item)
     return {"item": item, "detail": detail, "spec": spec, "tjp": render.render(spec)}
 
 
 def sample(item):
     from mc import render
+    if item.get("kind") == "wide7":
+        from mc.props import wide
+        return {"item": item, "tjp": render.render(wide.to_spec7(item))}
     return {"item": item, "tjp": render.render(to_spec(item))}
 
 
 def run(ctx):
     st = Stats()
     explore(ctx, universe(ctx.tier), "mc.props.c07:evaluate", st, payload=payload, sample_of=sample)
+    from mc.props import wide
+    explore(ctx, wide.universe7(ctx.tier), "mc.props.c07:evaluate", st, payload=payload, sample_of=sample)
     common.vacuity_guard(ctx, st)
     cov = st.coverage(
         "container-predecessor projects (two tasks in a container, a third depending on the container, either declaration order) + complete product universe: n tasks x efforts x allocation per task x every acyclic edge set (<= 2 edges, either declaration "
